@@ -7,11 +7,11 @@ git -C /repo worktree add -q --detach $w HEAD || exit 2
 cd $w
 export CARGO_NET_OFFLINE=true
 git apply "$d/patch.diff" || { echo "PATCH-DOES-NOT-APPLY"; cd /; git -C /repo worktree remove --force $w; exit 2; }
-suite=$(cargo test --offline --no-fail-fast 2>&1 | grep -E "^test result" | awk '{p+=$4; f+=$6} END {print p" passed "f" failed"}')
+suite=$(cargo test --offline --no-fail-fast 2>&1 | grep -E "^test result:" | awk '{p+=$4; f+=$6} END {print p" passed "f" failed"}')
 [ -f "$d/demo-setup.diff" ] && git apply "$d/demo-setup.diff"
 cp "$d/mutation_demo.rs" tests/mutation_demo.rs
-with=$(cargo test --offline --test mutation_demo 2>&1 | grep -E "^test result" | head -1)
+with=$(cargo test --offline --test mutation_demo 2>&1 | grep -E "^test result:" | head -1)
 git apply -R "$d/patch.diff"
-without=$(cargo test --offline --test mutation_demo 2>&1 | grep -E "^test result" | head -1)
+without=$(cargo test --offline --test mutation_demo 2>&1 | grep -E "^test result:" | head -1)
 echo "$(basename $d): suite-with-change: $suite | demo-with-change: $with | demo-without: $without"
 cd /; git -C /repo worktree remove --force $w
